@@ -16,6 +16,7 @@ def parseMut : List String → Option Mut
     | some c, some i => some (.status c i)
     | _, _ => none
   | ["nm", i] => i.toNat?.map .name
+  | ["lk", i] => i.toNat?.map .link
   | ["dur"] => some .dur
   | _ => none
 
@@ -44,6 +45,7 @@ def showMut : Mut → String
   | .event i => s!"ev:{i}"
   | .status c i => s!"st:{c}:{i}"
   | .name i => s!"nm:{i}"
+  | .link i => s!"lk:{i}"
   | .dur => "dur"
 
 def showMuts (l : List Mut) : String := "[" ++ ",".intercalate (l.map showMut) ++ "]"
